@@ -2,6 +2,7 @@
 from __future__ import annotations
 
 import json
+import zlib
 
 from . import core
 
@@ -23,6 +24,16 @@ def warm_calls(s):
 def construct(ver, s, warm=False):
     """(object, None) or (None, canonical error name)"""
     im = core.impl()
+    # a deterministic share of the constructions is preceded by a look-alike: the other-minor-version twin (v3) or the very
+    # same string, built and dropped - whatever an implementation remembers between constructions must not matter
+    h = zlib.crc32(s.encode("utf-8", "replace")) & 3
+    try:
+        if h == 1 and ver == "3" and s.startswith("CVSS:3."):
+            im.cls[ver](("CVSS:3.1/" if s.startswith("CVSS:3.0/") else "CVSS:3.0/") + s[9:])
+        elif h == 2:
+            im.cls[ver](s)
+    except Exception:  # noqa
+        pass
     try:
         o = im.cls[ver](s)
     except Exception as e:  # noqa
